@@ -322,6 +322,16 @@ def path_pool(tier, rnd, ext=True, budget=None):
         for t in itertools.product(core[:6], repeat=4):
             if rnd.random() < 0.3:
                 add((t[0], sl, t[1], sl, t[2], sl, t[3]))
+    # cross-segment parser-state leaks: every extended segment next to every other one
+    if ext:
+        ext_units = [('seg', s) for s in segs if any(n[0] in ('grp', 'neg') for n in s)]
+        ext_units += [('seg', (('grp', '@', ((lit('.'), lit('x')),)),)), ('seg', (('neg', ((lit('.'), lit('a')),)),)),
+                      ('seg', (('grp', '?', ((lit('.'),),)), STAR))]
+        for u, v in itertools.product(ext_units, repeat=2):
+            add((u, sl, v))
+        for u, v in itertools.product(ext_units[::2], ext_units[1::2]):
+            add((('seg', (lit('a'),)), sl, u, sl, v))
+            add((u, sl, gs2, sl, v))
     # escaped separators and odd forms (MAY-only for specs; differential checks use them fully)
     add((('seg', (lit('a'),)), ('sep', '\\/'), ('seg', (lit('b'),))))
     add((('seg', (lit('a'),)), ('sep', '/'), ('sep', '\\/'), ('seg', (STAR,))))
